@@ -97,6 +97,8 @@ CALLS['gate.ellipse(log)'] = (lambda s, a: FlowCal.gate.ellipse(s + 1, a['chs2']
 for _sc in ('linear', 'log', 'logicle'):
     CALLS['gate.density2d(bins int,%s)' % _sc] = ((lambda sc: (lambda s, a: FlowCal.gate.density2d(s, a['chs2'], bins=8, gate_fraction=0.5, xscale=sc, yscale=sc, sigma=1.0, full_output=True)))(_sc), False, False)
     CALLS['gate.density2d(bins list,%s)' % _sc] = ((lambda sc: (lambda s, a: FlowCal.gate.density2d(s, a['chs2'], bins=a['bins2'], gate_fraction=0.5, xscale=sc, yscale=sc, sigma=1.0)))(_sc), False, False)
+CALLS['gate.density2d(edge arrays,full)'] = (lambda s, a: FlowCal.gate.density2d(s, a['chs2'], bins=a['edges2'], gate_fraction=0.7, sigma=1.0, full_output=True), False, False)
+CALLS['gate.density2d(one edge array,full)'] = (lambda s, a: FlowCal.gate.density2d(s, a['chs2'], bins=a['edges'], gate_fraction=0.7, sigma=1.0, full_output=True), False, False)
 CALLS['gate.density2d(edges)'] = (lambda s, a: FlowCal.gate.density2d(s, a['chs2'], bins=a['edges2'], gate_fraction=0.7, sigma=1.0), False, False)
 for _st in ('mean', 'gmean', 'median', 'mode', 'std', 'cv', 'gstd', 'gcv', 'iqr', 'rcv'):
     CALLS['stats.%s' % _st] = ((lambda st: (lambda s, a: getattr(FlowCal.stats, st)(s + 1 if st in ('gmean', 'gstd', 'gcv') else s, a['chs'])))(_st), True, False)
@@ -212,6 +214,12 @@ class Prop(common.PropertyCheck):
         for kind in ('int', 'float'):
             for q1, q2 in itertools.permutations(ro, 2):
                 yield {'k': 'pair', 'q1': q1, 'q2': q2, 'data': kind, 'seed': 7}
+        # a by-name query on the parent, then a sub-sample taken with a slice / list / mask, then by-name queries on the sub-sample:
+        # answers equal those of the same sub-sample derived from a fresh load
+        for q1 in ('getitem', 'range', 'stats', 'gate', 'none'):
+            for sl in ('1:3', '::-1', '2:', 'list', 'mask+1:'):
+                for kind in ('int', 'float'):
+                    yield {'k': 'derived', 'q1': q1, 'sl': sl, 'data': kind}
         for _ in range(self.budget(150, 1500)):
             ops = [{'t': 'load', 'n': 4}]
             nobj = 1
@@ -247,6 +255,8 @@ class Prop(common.PropertyCheck):
         np.random.seed(case.get('seed', 1) % (1 << 31))
         if case['k'] == 'history':
             return self.run_history(case)
+        if case['k'] == 'derived':
+            return self.run_derived(case)
         s = self.sample(case['data'], 0)
         a = build_args(s, self.rng, case['data'] == 'float')
         if case['k'] == 'call':
@@ -284,6 +294,21 @@ class Prop(common.PropertyCheck):
                     share_meta = True
                 if any(np.shares_memory(r, o) for o in argobjs):
                     share_buf = True
+            # plain arrays inside the result (bin edges, masks, contours) must not be the caller's own arrays
+            rarrs, aarrs = [], []
+
+            def leaves(x, acc, depth=0):
+                if isinstance(x, np.ndarray) and not isinstance(x, FlowCal.io.FCSData):
+                    acc.append(x)
+                elif isinstance(x, (tuple, list)) and depth < 4:
+                    for e in x:
+                        leaves(e, acc, depth + 1)
+                elif isinstance(x, dict) and depth < 4:
+                    for e in x.values():
+                        leaves(e, acc, depth + 1)
+            leaves(res, rarrs)
+            leaves([v for k, v in a.items() if not callable(v)], aarrs)
+            out['share_arg_array'] = bool(any(np.shares_memory(x, y) for x in rarrs for y in aarrs if x.size and y.size))
             out['share_meta'] = share_meta
             out['share_buf'] = share_buf
             out['shares_allowed'] = shares
@@ -310,6 +335,55 @@ class Prop(common.PropertyCheck):
         except Exception as e:
             return {'err': type(e).__name__ + ':' + str(e)[:100]}
         return {'same': alone == after, 'alone': str(alone)[:200], 'after': str(after)[:200]}
+
+    def run_derived(self, case):
+        def derive(d):
+            sl = case['sl']
+            if sl == '1:3':
+                return d[:, 1:3]
+            if sl == '::-1':
+                return d[:, ::-1]
+            if sl == '2:':
+                return d[:, 2:]
+            if sl == 'list':
+                return d[:, [d.channels[3], d.channels[1]]]
+            return d[np.arange(d.shape[0]) % 2 == 0][:, 1:]
+
+        def answers(s):
+            out = []
+            for nm in s.channels:
+                try:
+                    out.append([nm, fpm.any_fp(s[:, nm]), fpm.fval(s.range(nm)), fpm.fval(s.amplification_type(nm)), fpm.fval(float(FlowCal.stats.mean(s, nm))),
+                                fpm.fval(s.hist_bins(nm, 4, 'linear').tolist())])
+                except Exception as e:
+                    out.append([nm, 'err:' + type(e).__name__ + ':' + str(e)[:60]])
+            # a name the sub-sample does not have must be refused
+            for nm in ('FSC-H', 'SSC-H', 'FL1-H', 'FL2-H'):
+                if nm not in s.channels:
+                    try:
+                        s[:, nm]
+                        out.append([nm, 'accepted although the sub-sample has no such channel'])
+                    except Exception as e:
+                        out.append([nm, 'refused'])
+            return out
+        try:
+            d = self.sample(case['data'], 0)
+            q1 = case['q1']
+            n1 = d.channels[1]
+            if q1 == 'getitem':
+                d[:, n1]
+            elif q1 == 'range':
+                d.range(n1); d.amplification_type(d.channels[2])
+            elif q1 == 'stats':
+                FlowCal.stats.median(d, n1)
+            elif q1 == 'gate':
+                FlowCal.gate.high_low(d, [d.channels[0]])
+            got = answers(derive(d))
+            want = answers(derive(self.sample(case['data'], 0)))
+        except Exception as e:
+            return {'err': type(e).__name__ + ':' + str(e)[:100]}
+        diff = [[a[0], str(a[1:])[:120], str(b[1:])[:120]] for a, b in zip(got, want) if a != b]
+        return {'same': not diff, 'diff': diff[:2], 'alone': '', 'after': ''}
 
     def run_history(self, case):
         objs = []
@@ -386,6 +460,8 @@ class Prop(common.PropertyCheck):
             self.bump('call-raised')
             if case['k'] == 'call':
                 return 'call %s on %s data raised %s' % (case['call'], case['data'], impl['err'])
+            if case['k'] == 'derived':
+                return 'queries on a sub-sample raised %s' % impl['err']
             return None
         if case['k'] == 'call':
             c = case['call']
@@ -395,10 +471,17 @@ class Prop(common.PropertyCheck):
                 return '%s changed caller-owned arguments %s (%s data)' % (c, impl['changed_args'], case['data'])
             if impl['share_meta']:
                 return 'result of %s shares metadata containers with its input' % c
+            if impl.get('share_arg_array') and not impl['shares_allowed']:
+                return 'an array inside the result of %s is (a view of) an array the caller passed in' % c
             if impl['share_buf'] and not impl['shares_allowed']:
                 return 'result of %s shares the event buffer with its input' % c
             if not impl['sample_same_after_result_edit']:
                 return 'editing the metadata of the result of %s changed the input' % c
+            return None
+        if case['k'] == 'derived':
+            if not impl['same']:
+                return 'by-name answers on the sub-sample [%s] taken after a %s query on its parent differ from those on the same sub-sample of a fresh load (%s data): %s' % (
+                    case['sl'], case['q1'], case['data'], impl['diff'])
             return None
         if case['k'] == 'pair':
             if not impl['same']:
@@ -438,4 +521,6 @@ class Prop(common.PropertyCheck):
             return ('call', case['call'], case['data'])
         if case['k'] == 'pair':
             return ('pair', case['q1'], case['q2'], case['data'])
+        if case['k'] == 'derived':
+            return ('derived', case['q1'], case['sl'], case['data'])
         return ('hist', tuple(o['t'] + o.get('how', '') for o in case['ops']))
